@@ -165,6 +165,30 @@ def feasibility_monitor(task):
                     bad("constraint_free_network_accepts_everything", "rejected a schedule without constraints")
         if not iface.is_feasible({}):
             bad("empty_schedule_is_feasible", "")
+        if rows:
+            # the description handed to schedulers follows the network: re-rate the last constraint under the SAME name after the interface has
+            # been queried, then the algorithm side (fresh infrastructure_info) must agree with the network on a schedule between the two limits
+            nm, cf, lim = rows[-1]
+            if lim > 1e-6 and any(abs(v) > 1e-9 for v in cf.values()):
+                new_lim = lim * 0.5
+                net.update_constraint(nm, acnsim.Current(dict(cf)), new_lim)
+                info2 = iface.infrastructure_info()
+                rows2 = rows[:-1] + [(nm, cf, new_lim)]
+                S1 = [[r.uniform(0, 40)] for _ in ids]
+                cur = spec_currents(ids, phases, [rows2[-1]], S1)[0][0]
+                if abs(cur) > 1e-9:
+                    a = 0.75 * lim / abs(cur)           # aggregate current on the re-rated link: between the new and the old limit
+                    S2 = [[x[0] * a] for x in S1]
+                    ok2, margin2 = spec_feasible(ids, phases, rows2, S2, net.violation_tolerance, net.relative_tolerance)
+                    if abs(margin2) > 1e-9:
+                        evals += 1
+                        g_net = bool(net.is_feasible(np.array(S2, dtype=float)))
+                        g_alg = bool(infrastructure_constraints_feasible(np.array(S2, dtype=float), info2,
+                                                                         violation_tolerance=net.violation_tolerance, relative_tolerance=net.relative_tolerance))
+                        lims2 = [float(x) for x in info2.constraint_limits]
+                        if g_net != ok2 or g_alg != ok2 or abs(lims2[-1] - new_lim) > 1e-12:
+                            bad("checkers_agree_after_a_constraint_is_re_rated", f"net {g_net} algorithm side {g_alg} definition {ok2}; limits seen by schedulers {lims2}, "
+                                f"network {[float(x) for x in net.magnitudes]}", dict(seed=k))
     return dict(label=task.get("label", "feasibility_monitor"),
                 bound=f"{n} seeded networks (1-5 stations, phases 30/-90/150/0, 0-4 mixed-sign constraints incl. fractional coefficients, network tolerances varied, "
                       f"a rejected add_constraint beforehand in 30%), 1-4 periods, schedules scaled to (1 +- {{1e-7, 3e-6, 1e-3}}) x the binding limit, "
